@@ -753,8 +753,13 @@ def pncbo(op, ifile1, ifile2, coordkeys=None, verbose=0):
             unit1 = getattr(in1var, 'units', 'unknown')
             unit2 = getattr(in2var, 'units', 'unknown')
             propd['units'] = '(%s) %s (%s)' % (unit1, op, unit2)
-            outval = np.ma.masked_invalid(
-                eval('in1var[...] %s in2var[...]' % op).view(np.ndarray))
+            outval = eval('in1var[...] %s in2var[...]' % op)
+            if isinstance(outval, np.ma.MaskedArray):
+                # keep the mask of masked operands
+                outval = outval.view(np.ma.MaskedArray)
+            else:
+                outval = outval.view(np.ndarray)
+            outval = np.ma.masked_invalid(outval)
             outvar = tmpfile.createVariable(
                 k, in1var.dtype.char, in1var.dimensions, fill_value=-999,
                 values=outval)
